@@ -6,13 +6,24 @@ from .execlib import *  # noqa: F401,F403
 from . import execlib
 
 
-def gen_join_group(rng, tier):
+def gen_join_group(rng, tier, run_at_boundary=False):
     """one (L, R, equi keys) instance and every physical join plan over it"""
     lt, rt = ["i32", "i32"], [rng.choice(["i32", "i32", "i32", "i64"]), "i32"]
+    if run_at_boundary:
+        rt = ["i32", "i32"]
     big = rng.random() < (0.02 if tier == "quick" else 0.05)   # > 1024 output rows: crosses the output chunk size
     L = gen_table(rng, 2, lt, max_rows=40 if big else 6, domain=[0, 1] if big else None)
     R = gen_table(rng, 2, rt, max_rows=40 if big else 6, domain=[0, 1] if big else None)
     nkeys = rng.choice([1, 1, 2])
+    if run_at_boundary:
+        # a run of equal keys across the 1024-row chunk boundary of the sorted input of the merge join
+        shift = rng.choice([0, 1])
+        rows = [[(i + shift) // 2 if i != 1026 else None, i] for i in range(1031)]
+        L = [rows[:400], rows[400:1031]] if rng.random() < 0.5 else [rows]
+        R = [[[k, 7] for k in (510, 511, 512, 512, 513, None)]]
+        if rng.random() < 0.5:
+            L, R = R, L
+        nkeys = 1
     lk = [("col", 0, i) for i in range(nkeys)]
     rk = [("col", 1, i) for i in range(nkeys)]
     eq = None
@@ -108,6 +119,8 @@ def run(R, only=None):
     groups = []
     groups.append(gen_agg_group(R.rng, R.tier, fixed_groups=1024))
     groups.append(gen_agg_group(R.rng, R.tier, fixed_groups=2048))
+    for _ in range(2 if R.tier == "quick" else 8):
+        groups.append(gen_join_group(R.rng, R.tier, run_at_boundary=True))
     for i in range(n):
         groups.append([gen_join_group, gen_join_group, gen_agg_group, gen_topn_group][i % 4](R.rng, R.tier))
     flat = [{"tables": g["tables"], "plan": p[3]} for g in groups for p in g["plans"]]
